@@ -1,4 +1,4 @@
-package tms20
+package processing
 
 // Harness API. Under the symbolic executor (gosmt) calls to these functions are intercepted by name and the
 // bodies below are never interpreted. Compiled natively (go test -overlay) the bodies read a replay vector,
